@@ -621,6 +621,8 @@ func containsEffectfulCall(c *FnCtx, e ast.Expr) bool {
 			if fc.Pure || (fc.HasMod && len(fc.Modifies) == 0) || fc.Inline {
 				return true
 			}
+		} else if c.lenient() {
+			return true // abstracted as effect-free in lenient mode (listed in the trusted base when executed)
 		}
 		found = true
 		return false
